@@ -34,7 +34,14 @@ def apply_contract(ip, contract, info, args, kwargs):
     env.update({'S': S, 'E': Env(ip), 'ghost': NS(ip.state.ghost)})
     for name, ty in contract.skolems.items():
         sk = ctx.skolems.get(name)
-        env[name] = sk if sk is not None else Sym(ctx.fresh('sk_' + name, Kind(ty).sort()), ty)
+        if sk is not None and isinstance(ty, Kind) != isinstance(sk, z3.ExprRef):
+            sk = None       # same name, different kind in caller and callee
+        if sk is not None and isinstance(ty, Kind) and sk.sort() != ty.sort():
+            sk = None
+        if isinstance(ty, Kind):
+            env[name] = sk if sk is not None else ctx.fresh('sk_' + name, ty.sort())
+        else:
+            env[name] = sk if sk is not None else Sym(ctx.fresh('sk_' + name, Kind(ty).sort()), ty)
     site = '%s<-%s' % (contract.qualname, ip.verifying)
     for label, fn in contract.requires.items():
         ctx.oblige('callsite-pre:%s/%s' % (site, label), ops.bterm(_b(call_clause(fn, env))))
@@ -80,6 +87,10 @@ def apply_contract(ip, contract, info, args, kwargs):
         ctx.assume(a_new >= ip.state.ghost['alloc'])
         ip.state.ghost['alloc'] = a_new
     result = make_result(ip, contract, argmap)
+    if contract.effect is not None:
+        r2 = contract.effect(ip, argmap, result)
+        if r2 is not NotImplemented:
+            result = r2
     feasible_before = ctx.feasible(z3.BoolVal(True))
     env['new'] = NS(dict(argmap, ghost=NS(ip.state.ghost)))
     env['ghost'] = NS(ip.state.ghost)
